@@ -89,7 +89,9 @@ def setup(root):
 def gen_case(rng, tier):
     case = S.gen_workload(rng, faults=False)
     case['power_seed'] = rng.getrandbits(32)
-    if case['body'] and rng.random() < 0.08:
+    if case['body'] and rng.random() < 0.04:
+        case['body'] = list(case['body']) + [['close']]     # e.g. handed to a wrapper that closes what it wraps
+    elif case['body'] and rng.random() < 0.08:
         # the process is told to die while the body runs: KeyboardInterrupt / SystemExit unwind the with-block
         case['body'] = list(case['body'])
         case['body'].insert(rng.randint(0, len(case['body'])), ['raise', 'base'])
@@ -243,9 +245,15 @@ def run_case(case):
         dest_exists = (old is not None) or bool(case.get('dest_initial'))   # a dangling symlink exists too
     refused = (dest_exists and not case.get('overwrite', True)) or stale_part
 
+    closed_refusal = False
     base = S.run_save(case, simfs.Plan(), log, fs=start_fs())
     if env_fail and not refused and isinstance(base.exc, OSError):
         refused = True        # e.g. no hard links: the no-clobber save may fail (or succeed some other atomic way)
+    if any(st[0] == 'close' for st in case['body']) and not refused and not interrupted \
+            and isinstance(base.exc, (ValueError, OSError)):
+        refused = True        # the body closed the file it was handed: the save may be refused (or still complete, synced)
+        closed_refusal = True
+        out.probe('body_closed_the_file_refused')
     if S.name_too_long(case) and not refused and isinstance(base.exc, OSError):
         refused = True        # no room for the part file's name: the save may be refused (or use a shorter name)
         out.probe('name_too_long_refused')
@@ -263,7 +271,7 @@ def run_case(case):
                      % (S.steps_before_raise(case), len(case['body']) - 1, _fmt(got), _fmt(old), _fmt(new)), phase='interrupted')
         else:
             out.probe('body_interrupted_by_baseexception')
-    elif base.exc is not None and not (refused and isinstance(base.exc, OSError)):
+    elif base.exc is not None and not (refused and (isinstance(base.exc, OSError) or closed_refusal)):
         out.fail('unexpected-exception', N, 'fault-free save raised %r' % (base.exc,), phase='fault-free')
     elif refused:
         if base.exc is None:
